@@ -19,6 +19,8 @@ def dispatch (p : String) (inp obs : Json) : Drv.Res :=
   | "C20" => Drv.c20 inp obs
   | "C03" => Drv.c03 inp obs
   | "C02" => Drv.c02 inp obs
+  | "C04" => Drv.c04 inp obs
+  | "C16" => Drv.c16 inp obs
   | "C05" => Drv.c05 inp obs
   | "C06" => Drv.c06 inp obs
   | _ => { agree := false, specOk := false, why := s!"unknown property {p}" }
